@@ -591,7 +591,77 @@ def dispatch_cases(rng: random.Random, n_sets: int):
                            sig=f"dispatch|strict={strict}")
 
 
+@dataclasses.dataclass(frozen=True)
+class C09Two(zoo.Expr):
+    """two tuple-valued child fields and a single one"""
+    xs: tuple[zoo.Expr, ...] = ()
+    ys: tuple[zoo.Expr, ...] = ()
+    z: zoo.Expr | None = None
+
+
+zoo.CHILD_FIELDS[C09Two] = [("xs", True), ("ys", True), ("z", False)]
+
+
+class _DropRepl(ASTTransformVisitor):
+    """Leaf(v) with v in `drop` is removed, with v in `repl` is replaced by Leaf(v + 100), v == `boom` raises (when armed)"""
+
+    def __init__(self, drop, repl, boom=None):
+        super().__init__()
+        self.drop, self.repl, self.boom, self.armed = set(drop), set(repl), boom, True
+
+    def visit_Leaf(self, node):
+        if self.armed and node.v == self.boom:
+            raise StopIteration("boom")
+        if node.v in self.drop:
+            return None
+        if node.v in self.repl:
+            return dataclasses.replace(node, v=node.v + 100)
+        return node
+
+
+def two_fields_cases(rng):
+    """(1) a node with TWO tuple-valued child fields: removals / replacements in the first field must not shift what happens
+    in the second (each field is rewritten on its own, in order); (2) the SAME visitor instance is used again on the same
+    tree after one of its methods raised: the second run is a complete bottom-up rewrite"""
+    L = lambda v: zoo.Leaf(v=v)  # noqa
+    plans = [({2}, {7}), ({1, 2}, {5}), ({3}, set()), (set(), {4, 6}), ({1, 5, 6}, {2}), ({2, 4}, {4 + 100})]
+    for k, (drop, repl) in enumerate(plans):
+        xs, ys = (L(1), L(2), L(3)), (L(4), L(5), L(6), L(7))
+        node = C09Two(xs=xs, ys=ys, z=L(2) if k % 2 else None)
+        root = zoo.Un(node)
+        want = lambda items: [(x.v + 100) if x.v in repl else x.v for x in items if x.v not in drop]  # noqa
+        fail = None
+        for reuse in (False, True):
+            vis = _DropRepl(drop, repl, boom=6 if reuse else None)
+            try:
+                if reuse:
+                    try:
+                        vis.transform(root)
+                        fail = fail or "the raising method did not propagate its exception"
+                    except StopIteration:
+                        pass
+                    vis.armed = False
+                res = vis.transform(root)
+                got = res.arg if isinstance(res, zoo.Un) else None
+                if not isinstance(got, C09Two):
+                    fail = fail or f"result is {zoo.show(res) if res is not None else None}"
+                elif [x.v for x in got.xs] != want(xs) or [x.v for x in got.ys] != want(ys):
+                    fail = fail or (f"xs={[x.v for x in got.xs]} ys={[x.v for x in got.ys]}, the bottom-up rewrite gives xs={want(xs)} "
+                                    f"ys={want(ys)}" + (" (same visitor instance, second run after a raise)" if reuse else ""))
+                elif any(g is not o for g, o in zip([x for x in got.xs if x.v < 100], [x for x in xs if x.v not in drop and x.v not in repl])):
+                    fail = fail or "an untouched tuple item is not the very same object"
+                elif (got.z is None) != (node.z is None or node.z.v in drop):
+                    fail = fail or "single field z handled wrongly"
+                elif [x.v for x in node.xs] != [1, 2, 3] or [x.v for x in node.ys] != [4, 5, 6, 7]:
+                    fail = fail or "the input node was modified"
+            except Exception as e:  # noqa
+                fail = fail or f"transform raised {type(e).__name__}: {e}"[:160]
+        yield Case("directed:two-tuple-fields", None, None, True, f"C09Two(xs=(1,2,3), ys=(4,5,6,7)) drop={sorted(drop)} replace={sorted(repl)}",
+                   oracle_fail=fail, sig="transform|directed|two-tuple-fields")
+
+
 def cases(rng: random.Random, tier: str):
+    yield from two_fields_cases(rng)
     yield from dispatch_cases(rng, 25 if tier == "quick" else 400)
     n = 2500 if tier == "quick" else 60000
     for _ in range(n):
